@@ -89,6 +89,69 @@ fn label_cut(r: &mut Rng, host: &str) -> String {
     labels[a..b].join(".")
 }
 
+/// A `$generichide` exception for host `h`: bare, or carrying party / `domain=` options.  The
+/// engine evaluates it against the page as a document request whose source is the page itself
+/// (Engine::url_cosmetic_resources), so the options are decided by the page alone.
+fn gh_line(r: &mut Rng, h: &str, page: &str) -> String {
+    let kw = if r.chance(1, 4) { "ghide" } else { "generichide" };
+    let d = {
+        let ph = if r.chance(2, 3) { page } else { r.pick(HOSTS) };
+        let d = if r.chance(1, 2) { ph.to_string() } else { label_cut(r, ph) };
+        if d.is_empty() || !d.is_ascii() { h.to_string() } else { d }
+    };
+    match r.below(12) {
+        0..=4 => format!("@@||{}^${}", h, kw),
+        5 => format!("@@||{}^${},{}", h, kw, r.pick(&["1p", "first-party", "~third-party", "~3p"])),
+        6 => format!("@@||{}^${},{}", h, kw, r.pick(&["3p", "third-party", "~first-party", "~1p"])),
+        7 => format!("@@||{}^${},domain={}", h, kw, d),
+        8 => format!("@@||{}^${},domain=~{}", h, kw, d),
+        9 => format!("@@${},domain={}", kw, d),
+        10 => format!("@@||{}^$domain={},{}", h, d, kw),
+        _ => {
+            let o = r.pick(HOSTS).trim_end_matches('.');
+            let o = if o.is_ascii() { o } else { "foo.net" };
+            format!("@@||{}^${},domain={}|{}", h, kw, d, o)
+        }
+    }
+}
+
+/// Does line `l` (one of `gh_line`'s forms) switch generic hiding off on page host `host`?
+/// None: not a generichide exception at all.
+fn gh_applies(l: &str, host: &str) -> Option<bool> {
+    let body = l.strip_prefix("@@")?;
+    let (pat, opts) = body.rsplit_once('$')?;
+    let opts: Vec<&str> = opts.split(',').collect();
+    if !opts.iter().any(|o| *o == "generichide" || *o == "ghide") {
+        return None;
+    }
+    let under = |name: &str| -> bool { !name.is_empty() && (host == name || host.ends_with(&format!(".{}", name))) };
+    let mut ok = true;
+    if !pat.is_empty() {
+        let h = pat.strip_prefix("||")?.strip_suffix('^')?;
+        let h = to_ascii(h).unwrap_or_default();
+        ok &= under(&h);
+    }
+    for o in opts {
+        match o {
+            "generichide" | "ghide" => {}
+            "1p" | "first-party" | "~third-party" | "~3p" => {}
+            // the page is never a third party to itself
+            "3p" | "third-party" | "~first-party" | "~1p" => ok = false,
+            _ => {
+                let ds = o.strip_prefix("domain=")?;
+                let (neg, pos): (Vec<&str>, Vec<&str>) = ds.split('|').partition(|d| d.starts_with('~'));
+                if !pos.is_empty() && !pos.iter().any(|d| under(d)) {
+                    ok = false;
+                }
+                if neg.iter().any(|d| under(&d[1..])) {
+                    ok = false;
+                }
+            }
+        }
+    }
+    Some(ok)
+}
+
 fn gen_location(r: &mut Rng, page: &str) -> String {
     let host = if r.chance(3, 5) { page } else { r.pick(HOSTS) };
     let name = match r.below(9) {
@@ -153,7 +216,7 @@ fn gen_rules(r: &mut Rng, page: &str) -> Vec<String> {
         // matching is C02's subject): keep the generichide hosts free of it
         let h = h.trim_start_matches("www.").to_string();
         if !h.is_empty() {
-            v.push(format!("@@||{}^$generichide", h));
+            v.push(gh_line(r, &h, page));
         }
     }
     v
@@ -268,7 +331,7 @@ fn gen_neg_rules(r: &mut Rng, page: &str, stats: &mut Vec<String>) -> Vec<String
     if r.chance(1, 6) {
         let h = label_cut(r, page).trim_start_matches("www.").to_string();
         if !h.is_empty() {
-            v.push(format!("@@||{}^$generichide", h));
+            v.push(gh_line(r, &h, page));
         }
     }
     // order is part of the input
@@ -557,11 +620,8 @@ fn reference(lines: &[String], perms: &[u8], req: &dyn Fn(&str) -> u8, host: &st
         match ref_accepted(l) {
             None => {
                 // not a cosmetic line of the generator's grammar: the generichide exception
-                if let (Ok(ParsedFilter::Network(_)), Some(h)) = (parse_filter(l, false, Default::default()), l.strip_prefix("@@||").and_then(|x| x.strip_suffix("^$generichide"))) {
-                    let h = to_ascii(h).unwrap_or_default();
-                    if !h.is_empty() && (host == h || host.ends_with(&format!(".{}", h))) {
-                        gh = true;
-                    }
+                if let (Ok(ParsedFilter::Network(_)), Some(true)) = (parse_filter(l, false, Default::default()), gh_applies(l, host)) {
+                    gh = true;
                 }
                 continue;
             }
@@ -964,6 +1024,13 @@ fn main() {
             sm.failure(None, f, desc.clone());
         }
         if run.got["generichide"] == json!(true) { cs.stat("generichide") }
+        for l in &rules {
+            if let Some(a) = gh_applies(l, &run.host) {
+                if l.contains(',') || l.starts_with("@@$") {
+                    cs.stat(if a { "generichide_with_options_applies" } else { "generichide_with_options_does_not_apply" });
+                }
+            }
+        }
         if run.got["perm_withheld"] == json!(true) { cs.stat("scriptlet_withheld_for_permission") }
         if run.got["perm_injected"] == json!(true) { cs.stat("permissioned_scriptlet_injected") }
         if run.got["scripts"].as_array().map(|x| !x.is_empty()).unwrap_or(false) { cs.stat("scripts_injected") }
